@@ -1,7 +1,7 @@
 (** C05 — inclusive gateway: forks on all true conditions, joins only the activated branches.
     Model: Model/InclGw.v (fork choice; join with the tracker's lagging picture of live tokens);
     the spreading of the chosen flows over the parked tokens is C03's distribute. *)
-From BV Require Import Model.InclGw Proofs.InclGwProofs.
+From BV Require Import Model.InclGw Proofs.InclGwProofs Model.InclLag Proofs.InclLagProofs.
 Open Scope nat_scope.
 
 (* FORK — exactly the non-default flows whose condition is true ... *)
@@ -50,6 +50,28 @@ Theorem C05_not_late_refuted_without_refresh :
             [JArrive 0; JArrive 1; JEnd 0; JEnd 1; JTrack 0; JTrack 1] = true.
 Proof. exact refuted_no_refresh. Qed.
 Print Assumptions C05_not_late_refuted_without_refresh.
+
+(* WHAT THE JOIN THEOREMS ABOVE ASSUME, made explicit (Model/InclLag.v): the tracker learns of a fork activation's tokens
+   from the fork's trace, asynchronously. When it knows the whole activation before the first token reaches the join,
+   the join lets exactly one token through, exactly when every token of the activation has arrived -- any number of
+   tokens, any arrival order ... *)
+Theorem C05_join_once_when_the_tracker_knows_the_fork : forall n s, 1 <= n -> lreach true n s ->
+  lrel s <= 1 /\ (lrel s = 1 <-> all_arrived (ltoks s) = true).
+Proof. exact informed_join_once. Qed.
+Print Assumptions C05_join_once_when_the_tracker_knows_the_fork.
+
+(* ... when it does not, it is FALSE of the engine as it is (open finding C05-join-picture-lags, reproduced on the
+   implementation by the long loop at full speed): the first token reaches the join before the tracker has processed
+   the fork's trace, the join takes it for the only one and lets it through, and the second one as well *)
+Theorem C05_join_once_refuted_when_the_fork_is_not_yet_known :
+  exists s, lexec (linit false 2) [LArr 0; LArr 1] = Some s /\ lrel s = 2.
+Proof. exact refuted_uninformed. Qed.
+Print Assumptions C05_join_once_refuted_when_the_fork_is_not_yet_known.
+
+Example C05_tracker_in_time_nonvacuous :
+  (exists s, lexec (linit false 2) [LKnow 1; LArr 0; LArr 1] = Some s /\ lrel s = 1) /\
+  (exists s, lexec (linit false 2) [LKnow 0; LKnow 1; LArr 1; LArr 0] = Some s /\ lrel s = 1).
+Proof. exact catching_up_in_time. Qed.
 
 Example C05_nonvacuous :
   exists s, jexec true (jinit 3) [JEnd 2; JArrive 0; JTrack 2; JArrive 1] = Some s /\ released s = 1 /\
